@@ -8,7 +8,8 @@ ID = 'C05'
 RULE = ('2..4 per-thread programs of operation templates (syscalls with lookups, raw qualifier sequences, new-thread and '
         'exec data+string pairs, thread names, global strings, dyld ops with their own strings, sampler windows, page '
         'faults, launches; child tids, pids and string ids partitioned per program by construction) and a generated '
-        'schedule (list of thread indexes, biased towards fine-grained alternation). Oracle (metamorphic): the serial '
+        'schedule (list of thread indexes, biased towards fine-grained alternation); records keep their own timestamps '
+        '(a record may be duplicated within one tick), and a thread may log a terminate record naming another thread. Oracle (metamorphic): the serial '
         'schedule and the interleaved schedule, each on a fresh parser, give for every thread the same list of '
         '(rendered text, identity of the events in the window) and the same final pids_names, threads_pids, tids_names '
         'and global_strings. Non-trivial: the schedule splits a data/string pair or a START..END window with an event '
@@ -16,25 +17,54 @@ RULE = ('2..4 per-thread programs of operation templates (syscalls with lookups,
 ASSUMPTIONS = ['decoders that by design read tables written by other threads are excluded by partitioning the resources']
 
 
+def stamp(i, p, progs):
+    """timestamps belong to the records, not to the merge: position in the own program (a duplicated record keeps the
+    timestamp of its original: two byte-identical records of one thread within one tick)"""
+    k = p
+    while k > 0 and progs[i][k] is progs[i][k - 1]:
+        k -= 1
+    return 100000 * (i + 1) + 7 * k
+
+
 def run_schedule(progs, order):
     """order: list of (prog index, position). returns per-tid results and final tables"""
     evs = [progs[i][p] for i, p in order]
-    real = EV.realize(evs)
+    real = EV.realize(evs, ts_list=[stamp(i, p, progs) for i, p in order])
     ident = {id(o): order[k] for k, o in enumerate(real)}
     parser = EV.new_traces_parser()
     per_tid = {}
-    for e in real:
-        t = parser.feed(e)
+    for t in parser.feed_generator(real):
         if t is not None:
             tid = t.ktraces[0].tid
-            per_tid.setdefault(tid, []).append((str(t), [ident.get(id(o), ('foreign-event', o.tid, o.timestamp)) for o in t.ktraces]))
+            per_tid.setdefault(tid, []).append((normal_text(t), [ident.get(id(o), ('foreign-event', o.tid, o.timestamp)) for o in t.ktraces]))
     tables = {'pids_names': dict(parser.pids_names), 'threads_pids': dict(parser.threads_pids),
               'tids_names': dict(parser.tids_names), 'global_strings': dict(parser.global_strings)}
     return per_tid, tables
 
 
+def normal_text(t):
+    s = str(t)
+    # a terminate record names another thread and shows that thread's current attribution/name by design
+    return s.split(',')[0] if s.startswith('Thread terminated tid:') else s
+
+
+DUP_OK = set(SC.JUNK) | {'MACH_SCHED', 'MACH_MKRUNNABLE', 'BSC_getpid', 'DecrTrap', 'PERF_THD_CSwitch', 'TRACE_STRING_PROC_EXIT'}
+
+
 def prop_interleave(ctx, case):
     progs = [SC.expand_program(i, ops, partition=True) for i, ops in enumerate(case['programs'])]
+    n = len(progs)
+    for i, k in case.get('terminates', []):
+        i %= n
+        if n > 1 and progs[i]:
+            pos = k % (len(progs[i]) + 1)
+            progs[i].insert(pos, EV.E(SC.PROGRAM_TIDS[i], 'TRACE_DATA_THREAD_TERMINATE', 0, args=[SC.PROGRAM_TIDS[(i + 1) % n], 0, 0, 0]))
+    for i, k in case.get('dups', []):
+        i %= n
+        cand = [p for p, e in enumerate(progs[i]) if e[2] == 0 and e[1] in DUP_OK]
+        if cand:
+            p = cand[k % len(cand)]
+            progs[i].insert(p + 1, progs[i][p])        # the very same record twice (same object: same timestamp)
     serial = [(i, p) for i, pr in enumerate(progs) for p in range(len(pr))]
     pos = [0] * len(progs)
     inter = []
@@ -74,6 +104,10 @@ def prop_interleave(ctx, case):
                 split = True
     cls = {'threads:%d' % len(progs)}
     cls |= {'kind:' + op[0] for ops in case['programs'] for op in ops}
+    if case.get('dups'):
+        cls.add('duplicate-record')
+    if case.get('terminates'):
+        cls.add('terminate-names-other-thread')
     if split:
         cls.add('pair-or-window-split')
     if inter != serial:
@@ -93,5 +127,6 @@ def schedule():
 
 
 def run(ctx):
-    strat = st.fixed_dictionaries({'programs': SC.programs_strategy(2, 4, 6), 'schedule': schedule()})
+    pairs = st.lists(st.tuples(st.integers(0, 3), st.integers(0, 40)).map(list), max_size=2)
+    strat = st.fixed_dictionaries({'programs': SC.programs_strategy(2, 4, 6), 'schedule': schedule(), 'dups': pairs, 'terminates': pairs})
     ctx.run_given('interleave', strat, prop_interleave, ctx.n(1200, 10000))
